@@ -272,6 +272,11 @@ theorem tx_header : TX readPayloadHeader := by
 theorem fwp_setH (h' h : Handle) (f Q) : (setH h' h).fwp f Q ↔ Q f (.ok (), h') := by unfold DM.setH; exact Iff.rfl
 
 macro "lora_tail" : tactic => `(tactic| (
+  dsimp only
+  split
+  · -- the packet does not fit into the buffer: refused before anything changes
+    simp only [fwp_fail, fwp_bind', fwp_modH]
+    intro e; cases e
   simp only [fwp_bind', fwp_getH, fwp_rread, fwp_swrite, fwp_modH, fwp_fail, fwp_pure]
   refine ⟨fun cur => ⟨?_, fun _ _ => trivial⟩, fun _ _ => trivial⟩
   split
